@@ -377,6 +377,17 @@ def names_and_totality(ctx):
                                            "no version"][(i // 4) % 8]
         if i % 8 == 3:
             info["openTypeNameUniqueID"] = "explicit;unique;id"
+        # always: names at the edges of the encodings a CFF table stores (ASCII for the font name and Weight, Latin-1 for the
+        # other strings): U+0100 alone, the Windows-1252 block that Latin-1 lacks, Latin-1 letters, a full-width letter
+        if i % 8 == 2:
+            info["familyName"] = ["\u0100hua", "\u0152uvre d\u2019Art", "Caf\u00e9 \u00ff", "\u20ac uro"][(i // 8) % 4]
+        if i % 8 == 5:
+            extra_w = {"postscriptWeightName": ["\u00e9", "\u00ffRegular", "\u0100tea", "Semi\u2011Bold", "Regular"][(i // 8) % 5]}
+        else:
+            extra_w = {}
+        odd_ps = i % 8 == 7
+        if odd_ps:
+            info["postscriptFontName"] = ["\uff33ans-Regular", "S\u00e9-Regular", "\u0100-Bold"][(i // 8) % 3]
         if rng.random() < 0.3:
             info["openTypeOS2VendorID"] = rng.choice(["ABCD", "XY", "G"])
         extra = {}
@@ -389,6 +400,7 @@ def names_and_totality(ctx):
                      "openTypeOS2Panose": [rng.randint(0, 9) for _ in range(10)], "postscriptIsFixedPitch": rng.random() < 0.5,
                      "openTypeNameLicense": "OFL", "openTypeNameDescription": "Описание"}
             extra = {k: v for k, v in extra.items() if rng.random() < 0.6}
+        extra = dict(extra, **extra_w)
         desc = {"glyphs": simple_glyphs(), "info": dict(info, **extra), "no_info_defaults": True}
         for flavor in ("ttf", "otf"):
             lib = rng.choice(["ufoLib2", "defcon"])
@@ -408,6 +420,8 @@ def names_and_totality(ctx):
             for nid in (1, 2, 3, 4, 5, 6, 16, 17):
                 got = nt.getDebugName(nid)
                 w = want.get(nid)
+                if odd_ps and nid in (3, 6):
+                    continue        # (an explicit PostScript name that is not ASCII: only "compiles, saves, CFF name is ASCII" is judged)
                 if (w or None) != got:
                     ctx.spec_failure(case, "name ID %d is %r, documented value %r" % (nid, got, w))
             psname = nt.getDebugName(6)
@@ -444,8 +458,11 @@ def names_and_totality(ctx):
                         v.encode("latin-1")
                     except UnicodeEncodeError:
                         ctx.spec_failure(case, "CFF %s %r is not Latin-1 encodable" % (fld, v))
-                if tt["CFF "].cff.fontNames[0] != (normalize6(ps)):
+                if not odd_ps and tt["CFF "].cff.fontNames[0] != (normalize6(ps)):
                     ctx.spec_failure(case, "CFF font name %r, expected %r" % (tt["CFF "].cff.fontNames[0], ps))
+                for label, v in (("font name", tt["CFF "].cff.fontNames[0]), ("Weight", getattr(td, "Weight", "") or "")):
+                    if any(ord(c) > 126 or ord(c) < 32 for c in v):
+                        ctx.spec_failure(case, "CFF %s %r is not ASCII" % (label, v))
     name_records_correspondence(ctx, name_cases)
 
 
